@@ -117,6 +117,15 @@ func genProgressSession(c *ctx) {
 	}
 }
 
+func c20NameDesc(s string) string {
+	for _, r := range s {
+		if r < 32 || r > 126 {
+			return "runes:" + c20Runes(s)
+		}
+	}
+	return fmt.Sprintf("%q", s)
+}
+
 type c20Ev struct {
 	kind  string // R resize, B begin transfer, T tick, O prompt open, K prompt close (continue), E end of transfer
 	z     int64  // R: columns; T: the number of the tick
@@ -217,6 +226,7 @@ func (c *ctx) c20SessionHistory(clk *int64, base int64, cols int, evs []c20Ev, l
 	var enc, outs []string
 	transfers, resizesLive, prompts := 0, 0, 0
 	inPrompt := false
+	paneMode := false // the live bar was created for an announced tmux pane and has not been resized since
 	for _, e := range evs {
 		switch c.rng.Intn(6) {
 		case 0:
@@ -237,10 +247,12 @@ func (c *ctx) c20SessionHistory(clk *int64, base int64, cols int, evs []c20Ev, l
 				}
 				s.SetTerminalColumns(int32(e.z))
 				curWidth = int(e.z)
+				paneMode = false
 				evStr = fmt.Sprintf("R~%d", e.z)
 			case "B":
 				desc += fmt.Sprintf(" createProgressBar(quiet=%v, pane=%d)", e.quiet, e.pane)
 				s.Start(e.quiet, e.pane)
+				paneMode = e.pane > 1 && int(e.pane) <= curWidth
 				probe = trzsz.VerifNewProgress(2000, 0, "")
 				first = true
 				transfers++
@@ -315,7 +327,7 @@ func (c *ctx) c20SessionHistory(clk *int64, base int64, cols int, evs []c20Ev, l
 				case "M":
 					name = e.s
 					evStr = "T~M:" + c20Runes(e.s)
-					desc += fmt.Sprintf(" onName(%s)", c20Runes(e.s))
+					desc += fmt.Sprintf(" onName(%s)", c20NameDesc(e.s))
 				case "S":
 					evStr = fmt.Sprintf("T~S:%d:%d:%s:%s:%s", e.z, now, c20Runes(fields[1]), c20Runes(fields[2]), c20Runes(fields[3]))
 					desc += fmt.Sprintf(" onStep(%d)@+%dms", e.z, now-base)
@@ -383,7 +395,7 @@ func (c *ctx) c20SessionHistory(clk *int64, base int64, cols int, evs []c20Ev, l
 			case e.kind == "B" && (e.pane <= 1 || int(e.pane) > curWidth) && int(bcols) != curWidth:
 				c.violate("session-width:new-bar-not-at-current-width", "the bar of a new transfer is not laid out for the current terminal width",
 					fmt.Sprintf("%s: current width %d, the bar lays out for %d", desc, curWidth, bcols))
-			case e.kind == "K" && int(bcols) != curWidth:
+			case e.kind == "K" && !paneMode && int(bcols) != curWidth:
 				c.violate("session-width:stale-after-prompt", "after the stop prompt the bar is not laid out for the current terminal width",
 					fmt.Sprintf("%s: current width %d, the bar lays out for %d", desc, curWidth, bcols))
 			case int(bcols) > curWidth:
